@@ -920,6 +920,10 @@ func (d *pcDriver) describeResult(op *pcOp) string {
 	}
 	var vs []string
 	for _, pi := range op.list {
+		if pi == nil {
+			vs = append(vs, "<nil>") // reported by verify
+			continue
+		}
 		vs = append(vs, fmt.Sprintf("%s.v%d", d.names.Name(string(pi.AddrInfo.ID)), pi.Lag))
 	}
 	sort.Strings(vs)
